@@ -858,6 +858,61 @@ static void do_copy(int k, ostore *dst, ostore *src, int how, vf_rng *r)
 	snap_free(&sb); snap_free(&sa); snap_free(&da);
 }
 
+/* ------------------------------------------ "" assignment from foreign sources */
+/*
+ * set("", src) copies from a sibling object.  Sources that are no sibling
+ * (object of another kind, plain text, numbers, colours, through a typed
+ * source and through mpt_object_set_string(obj, "", text)) are refused - and
+ * a refused assignment leaves the (non-default) target as it was.
+ */
+static void do_foreign(int k, ostore *o, vf_rng *r)
+{
+	static ostore other[NKinds];
+	snap before;
+	hconv h;
+	char ctx[200];
+	int how = (int) vf_below(r, 6), ret;
+
+	snap_take(k, o, &before);
+	hconv_init(&h);
+	if (how == 0) {
+		/* object of another kind */
+		int ok = (int) ((k + 1 + vf_below(r, NKinds - 1)) % NKinds);
+		o_init(ok, &other[ok], 0);
+		if (ok == KLine) { h.vclass = VLine; h.rawtype = mpt_line_typeid(); h.rawlen = sizeof(MPT_STRUCT(line)); memcpy(h.raw, &other[ok].line, h.rawlen); }
+		else { h.vclass = VPtr; h.ptr = &other[ok]; h.ptrtype = ptr_typeid(ok); }
+		snprintf(ctx, sizeof(ctx), "mpt_%s_set(\"\", %s object)", kname[k], kname[ok]);
+		vf_log("%s", ctx);
+		ret = o_set(k, o, "", &h._conv);
+		o_fini(ok, &other[ok]);
+	}
+	else if (how < 4) {
+		make_value(&h, how == 1 ? 28 : how == 2 ? (int) vf_below(r, 24) : 40, 0, 0, r);   /* text, number, line attributes */
+		h.empty = 0;
+		snprintf(ctx, sizeof(ctx), "mpt_%s_set(\"\", %s)", kname[k], hconv_str(&h));
+		vf_log("%s", ctx);
+		ret = o_set(k, o, "", &h._conv);
+	}
+	else {
+		static const char *texts[] = { "some text", "1", "red", "0.5 0.5" };
+		const char *txt = texts[vf_below(r, 4)];
+		owrap w;
+		w._obj._vptr = &owrap_vptr; w.k = k; w.o = o;
+		snprintf(ctx, sizeof(ctx), "mpt_object_set_string(%s, \"\", \"%s\")", kname[k], txt);
+		vf_log("%s", ctx);
+		vf_at("mpt_object_set_string");
+		ret = mpt_object_set_string(&w._obj, "", txt, 0);
+		vf_count("mpt_object_set_string", 1);
+	}
+	vf_log("  -> %d", ret);
+	vf_count("monitor:foreign-source-assignments", 1);
+	if (ret < 0) {
+		check_unchanged(k, o, &before, "model:copy:refused-modified", ctx);
+		vf_count("foreign:refused", 1);
+	} else vf_count("foreign:accepted", 1);   /* e.g. a colour offered to a line: what is taken over is not claimed */
+	snap_free(&before);
+}
+
 /* ---------------------------------------------------------------- get by name */
 static void do_get_names(int k, const ostore *o, vf_rng *r)
 {
@@ -991,7 +1046,8 @@ static void case_sequence(vf_rng *r)
 			if (l + 30 < sizeof(desc)) l += snprintf(desc + l, sizeof(desc) - l, " %d=clear", w);
 		}
 		else if (op < 16) {
-			do_get_names(k, &o[w], r);
+			if (vf_chance(r, 1, 2)) do_get_names(k, &o[w], r);
+			else { do_foreign(k, &o[w], r); vf_fp_u64(0xf0); }
 		}
 		else if (op < 17) {
 			/* unknown names, prefixes of setter names */
